@@ -103,6 +103,18 @@ CHECKS = [
      "note": "hourly finiteness depends on fitted coefficients and scalers (bounded only); the data class's contiguous index is C17",
      "not_covered": ["hourly predictions finite for every fitted model (bounded sample only)"],
      },
+    {"id": "C02", "level": "other", "modules": ["contracts.C02_frames"], "bounded": ["flow.C02_flow", "bounded.C02_history"], "engine": "pyvc+flow",
+     "technique": "flow contracts (assigns / frame conditions) checked by abstract interpretation of the real AST + deductive frame obligations on fit (pyvc) + bounded histories",
+     "text": "Frame conditions in the SPARK tradition: for predict, fit, the data-class constructors/from_series and the window functions a "
+             "flow-sensitive points-to/effect analysis of /repo's AST (engine B) discharges 'nothing reachable from a parameter is mutated', "
+             "'the predict path writes no self attribute outside an approved, value-preserving set', 'df/billing_df return a new object on every "
+             "path'; symbolic execution (engine A) proves that fit leaves the data object's lists unmodified and un-aliased. History independence "
+             "then follows by induction over calls. The bounded part replays scripted histories on real objects.",
+     "note": "may-analysis over the repository's own code; library calls are pure unless in the mutator table; pandas Copy-on-Write semantics assumed; "
+             "value preservation of the approved hourly predict-time writes is only exercised by the bounded histories",
+     "not_covered": ["mutation inside scikit-learn / pandas objects by library code", "CalTRACK-hourly predict history beyond the flow obligations"],
+     "explanation": "flow obligations + engine-A frame obligations discharged on every run; bounded histories labelled bounded",
+     },
 ]
 _NOT_BUILT = "machinery for this property is not built yet (see DESIGN.md §7 build order); not claimed"
 NOT_APPLICABLE = [{"property_id": f"C{n:02d}", "reason": _NOT_BUILT} for n in range(1, 21) if n != 15 and f"C{n:02d}" not in {c["id"] for c in CHECKS}] + [
